@@ -358,7 +358,9 @@ func writeDefinitions(w *formatting.IndentedWriter, ns *dsl.Namespace, symbolTab
 
 					fmt.Fprintf(w, "if (!%s(values)) {\n", common.ProtocolReadImplMethodName(step))
 					w.Indented(func() {
-						fmt.Fprintf(w, "state_ = %d;\n", 2*i+1)
+						// With values, the end of the stream has not been observed by the caller yet:
+						// the next call returns false. Without values it has.
+						fmt.Fprintf(w, "state_ = values.size() > 0 ? %d : %d;\n", 2*i+1, 2*i+2)
 						w.WriteStringln("return values.size() > 0;")
 					})
 					w.WriteStringln("}")
